@@ -740,6 +740,7 @@ type c09Case struct {
 	Via   string   `json:"via,omitempty"`
 	Spec2 *c09Spec `json:"spec2,omitempty"`
 	OFMT  string   `json:"ofmt,omitempty"`
+	Src   string   `json:"src,omitempty"`
 }
 
 // c09CheckSpecs evaluates specs x all arguments in one mode. Failures are
@@ -1089,6 +1090,43 @@ func c09CheckErr(c *core.Ctx, r *c09Runner, ec c09ErrCase) {
 	}
 }
 
+// c09CheckErrReuse: the same format first used with enough arguments (which
+// parses and caches it), then with too few — still an error, not a crash.
+func c09CheckErrReuse(c *core.Ctx, ec c09ErrCase) {
+	if !ec.must || ec.what != "too-few-arguments" {
+		return
+	}
+	few := []string{"1", "2", "3"}[:ec.nargs]
+	for via, tmpl := range []string{
+		`BEGIN { f = %s; x = sprintf(f, 1, 2, 3, 4, 5, 6); y = sprintf(f%s); print "continued" }`,
+		`BEGIN { f = %s; printf f, 1, 2, 3, 4, 5, 6; printf f%s; print "continued" }`,
+		`{ f = %s; if (NR == 1) x = sprintf(f, 1, 2, 3, 4, 5, 6); else x = sprintf(f%s); print "rec", NR }`,
+	} {
+		rest := ""
+		if len(few) > 0 {
+			rest = ", " + strings.Join(few, ", ")
+		}
+		src := fmt.Sprintf(tmpl, strconv.Quote(ec.f), rest)
+		p, err, pn := awk.Parse(src, nil)
+		if err != nil || pn != "" {
+			continue
+		}
+		res := awk.Exec(p, &interp.Config{Stdin: strings.NewReader("a\nb\n")})
+		c.Eval(1)
+		c.Add("transitions", 1)
+		cs := c09Case{Kind: "err-reuse", FmtQ: strconv.Quote(ec.f), NArgs: ec.nargs, Via: []string{"sprintf", "printf", "sprintf-per-record"}[via], Src: src}
+		switch {
+		case res.Panic != "":
+			c.Fail("panic too-few-arguments-after-successful-use", cs, firstLine(res.Panic))
+		case res.Err == nil:
+			c.Fail("too-few-arguments-after-successful-use-is-no-error", cs, fmt.Sprintf("%q: no error, output %q", ec.f, res.Out))
+		case strings.Contains(res.Out, "continued") || strings.Contains(res.Out, "rec 2"):
+			c.Fail("too-few-arguments-after-successful-use-continued", cs, res.Out)
+		}
+		c.Outcome("reuse:" + fmt.Sprint(res.Err != nil))
+	}
+}
+
 // ---------------------------------------------------------------------------
 // print uses OFMT
 
@@ -1218,6 +1256,7 @@ func c09Run(c *core.Ctx) {
 	for _, ec := range c09ErrCases() {
 		if c.Mine() {
 			c09CheckErr(c, r, ec)
+			c09CheckErrReuse(c, ec)
 		}
 	}
 	for _, o := range c09OFMTs {
@@ -1245,6 +1284,14 @@ func c09Replay(c *core.Ctx, raw json.RawMessage) {
 		for _, l := range c09Lits() {
 			if l.format() == f && len(l.args) == cs.NArgs {
 				c09CheckLit(c, e, r, l)
+			}
+		}
+	case "err-reuse":
+		f := unquoteGo(cs.FmtQ)
+		for _, ec := range c09ErrCases() {
+			if ec.f == f && ec.nargs == cs.NArgs {
+				c09CheckErrReuse(c, ec)
+				break
 			}
 		}
 	case "err":
